@@ -211,7 +211,7 @@ def _call3(case, dask_chunks=None, only=None):
     return out
 
 
-def _call_pair(case_a, case_b, chunks, name):
+def _call_pair(case_a, case_b, chunks, name, mode='together'):
     """two lazy Dask results computed TOGETHER (dask.compute(a, b)): graph keys of different rasters must not collide"""
     import importlib
     import dask
@@ -223,7 +223,13 @@ def _call_pair(case_a, case_b, chunks, name):
         r = _build_raster(case, chunks)
         lazies.append(getattr(P, name)(r, target_values=list(case.get('tv', [])), max_distance=md,
                                        distance_metric=case.get('metric', 'EUCLIDEAN')).data)
-    vals = dask.compute(*lazies)
+    if mode == 'reverse':
+        # lazy results computed one by one, the later one first, only after both have been built
+        vals = [None, None]
+        vals[1] = lazies[1].compute()
+        vals[0] = lazies[0].compute()
+    else:
+        vals = dask.compute(*lazies)
     return {'pair': [{'dtype': str(np.asarray(v).dtype), 'v': [[float(x) for x in row] for row in np.asarray(v).tolist()]}
                      for v in vals]}
 
@@ -294,7 +300,7 @@ def worker_main():
             elif req['op'] == 'dask_derived':
                 res = _call_derived(req['case'], req['chunks'], req['derive'], req['name'])
             elif req['op'] == 'dask_pair':
-                res = _call_pair(req['case'], req['case_b'], req['chunks'], req['name'])
+                res = _call_pair(req['case'], req['case_b'], req['chunks'], req['name'], req.get('mode', 'together'))
             else:
                 res = {'fatal': 'unknown op'}
         except Exception as e:
@@ -667,6 +673,12 @@ def dir0_case():
                 mode='default', max_distance='inf', no_model=True)
 
 
+def sq_underflows(d):
+    """the code works with float32(d**2): below ~3.7e-23 that is 0 and the reported distance is sqrt(0) = 0 - e.g. GREAT_CIRCLE
+    between two longitudes of a pole row, or between lon -180 and lon 180 (the same point)"""
+    return d is not None and float(np.float32(d) * np.float32(d)) == 0.0
+
+
 def surely_within(dist, md):
     """dist (a float32 distance) is within max_distance beyond any float32 rounding doubt: clearly below it, or exactly
     equal with an exactly representable square (so dist**2 <= max_distance**2 holds in every precision)"""
@@ -715,11 +727,15 @@ def oracle_partial(ctx, case, impl, what):
             inrange = [(dist, tr, tc) for dist, tr, tc in ds if dist <= max(md, f32(md))]
             if 'proximity' in vals:
                 p = vals['proximity']
-                if (p == 0.0) != tgt:
+                if (p == 0.0) != tgt and not (p == 0.0 and sq_underflows(nearest)):
                     return bad('proximity %r on a %s cell' % (p, 'target' if tgt else 'non-target'), r, c)
-                if p < nearest or p > max(md, f32(md)) or not any(dist == p for dist, _, _ in ds):
+                if p == 0.0 and not tgt:
+                    inrange = [x for x in inrange if sq_underflows(x[0])]
+                    p = None
+                elif p < nearest or p > max(md, f32(md)) or not any(dist == p for dist, _, _ in ds):
                     return bad('proximity %r is not the distance to a target within max_distance (nearest %r)' % (p, nearest), r, c)
-                inrange = [x for x in inrange if x[0] == p]
+                if p is not None:
+                    inrange = [x for x in inrange if x[0] == p]
             if 'allocation' in vals and not any(same(f32(data[tr][tc]), vals['allocation']) for _, tr, tc in inrange):
                 return bad('allocation %r is not the value of a target at the reported distance / within max_distance'
                            % vals['allocation'], r, c)
@@ -731,7 +747,8 @@ def oracle_partial(ctx, case, impl, what):
                                        ('allocation' not in vals or same(f32(data[tr][tc]), vals['allocation']))
                                        for _, tr, tc in inrange):
                     return bad('direction %r is not the bearing to a target at the reported distance / within max_distance' % d, r, c)
-            if len(targets) == 1 and 'proximity' in vals and vals['proximity'] != nearest:
+            if len(targets) == 1 and 'proximity' in vals and vals['proximity'] != nearest and \
+                    not (vals['proximity'] == 0.0 and sq_underflows(nearest)):
                 return bad('single target: proximity %r is not the exact distance %r' % (vals['proximity'], nearest), r, c)
     return True
 
@@ -791,7 +808,7 @@ def oracle(ctx, case, impl, what='numpy', exact_small=True):
                         seam = True
                 if not seam:
                     return bad('non-target cell has direction 0 (reserved for the target cell itself)', r, c)
-            if (not tgt) and p == 0.0:
+            if (not tgt) and p == 0.0 and not sq_underflows(nearest):
                 return bad('non-target cell has proximity 0', r, c)
             if math.isnan(p):
                 if targets and md == INF:
@@ -800,7 +817,7 @@ def oracle(ctx, case, impl, what='numpy', exact_small=True):
             # the cell is not NaN
             if nearest is None:
                 return bad('no target in the raster but proximity is %r' % p, r, c)
-            if p < nearest and not close(p, nearest):
+            if p < nearest and not close(p, nearest) and not (p == 0.0 and sq_underflows(nearest)):
                 return bad('proximity %r underestimates the nearest target distance %r' % (p, nearest), r, c, nearest=nearest)
             # the output is float32: a distance equal to max_distance may round up by half an ulp
             if p > max(md, f32(md)) and not (gc and close(p, md)):
@@ -1324,7 +1341,7 @@ def theme_cases(rng):
     g[rng.randrange(len(ys))][rng.choice([0, len(xs) - 1])] = 4
     out.append(dict(fn='numpy3', layout='gc-antimeridian-poles', metric='GREAT_CIRCLE', data=[[float(v) for v in row] for row in g],
                     dtype='float64', xs=xs, ys=ys, cdtype='float64', ykind='gc', xkind='gc', tv=[], mode='default',
-                    max_distance='inf', only=['proximity', 'allocation']))
+                    max_distance='inf', only=['proximity', 'allocation'], no_model=True))
     return out
 
 
